@@ -25,7 +25,7 @@ func (c05) Assumptions() []string {
 	return []string{"reference flattening in props/c05.go follows the override rules of the statement for the 7 attribute kinds used"}
 }
 
-var c05attrs = []string{"hostname", "environment", "security_opt", "command", "build.context", "env_file", "volumes"}
+var c05attrs = []string{"hostname", "environment", "security_opt", "command", "build.context", "env_file", "volumes", "logging.options"}
 
 type c05chain struct {
 	links []int // kind of link i: position i extends position i+1; 0 same file, 1 other file same dir, 2 sub-dir, 3 sibling dir
@@ -107,6 +107,10 @@ func c05build(ch c05chain, carries map[string]uint, perm []int) (*Scn, map[strin
 		if has("volumes") {
 			fmt.Fprintf(&sb, "    volumes: [\"./d%d:/t%d\"]\n", i, i)
 		}
+		if has("logging.options") {
+			// a nested mapping merged key by key: every position contributes its own key
+			fmt.Fprintf(&sb, "    logging:\n      driver: json-file\n      options: {k%d: v%d}\n", i, i)
+		}
 		bodies[files[i]] = append(bodies[files[i]], sb.String())
 	}
 	scnFiles := map[string]string{}
@@ -125,15 +129,20 @@ type c05exp struct {
 	context  string
 	envFiles []string
 	volumes  map[string]string // target -> source
+	logopts  map[string]string
+	image    string
 }
 
-func c05expect(ch c05chain, carries map[string]uint, root string) c05exp {
+func c05expect(ch c05chain, carries map[string]uint, root string) c05exp { return c05expectAt(ch, carries, root, 0) }
+
+// c05expectAt: the flattened expectation for the service at chain position from (it inherits positions > from).
+func c05expectAt(ch c05chain, carries map[string]uint, root string, from int) c05exp {
 	files, _ := ch.layout()
 	n := len(files)
-	e := c05exp{env: map[string]string{}, volumes: map[string]string{}}
+	e := c05exp{env: map[string]string{}, volumes: map[string]string{}, logopts: map[string]string{}, image: fmt.Sprintf("img%d", from)}
 	has := func(a string, i int) bool { return carries[a]&(1<<uint(i)) != 0 }
 	// base-most first, most derived last
-	for i := n - 1; i >= 0; i-- {
+	for i := n - 1; i >= from; i-- {
 		dir := filepath.Join(root, filepath.Dir(files[i]))
 		if has("hostname", i) {
 			e.hostname = fmt.Sprintf("h%d", i)
@@ -157,20 +166,53 @@ func c05expect(ch c05chain, carries map[string]uint, root string) c05exp {
 		if has("volumes", i) {
 			e.volumes[fmt.Sprintf("/t%d", i)] = filepath.Join(dir, fmt.Sprintf("d%d", i))
 		}
+		if has("logging.options", i) {
+			e.logopts[fmt.Sprintf("k%d", i)] = fmt.Sprintf("v%d", i)
+		}
 	}
 	return e
 }
 
-func c05compare(p *types.Project, e c05exp) string {
-	s, ok := p.Services["s0"]
+func c05compare(p *types.Project, e c05exp) string { return c05compareSvc(p, "s0", e) }
+
+// c05compareAll checks every chain member that lives in the main file (bases must not be altered by their extenders).
+func c05compareAll(p *types.Project, ch c05chain, carries map[string]uint, root string) string {
+	files, names := ch.layout()
+	seen := map[string]bool{}
+	for j := range files {
+		if files[j] != files[0] || seen[names[j]] {
+			continue
+		}
+		seen[names[j]] = true
+		if msg := c05compareSvc(p, names[j], c05expectAt(ch, carries, root, j)); msg != "" {
+			if j == 0 {
+				return msg
+			}
+			return fmt.Sprintf("%s [base service %s at chain position %d, after being extended]", msg, names[j], j)
+		}
+	}
+	return ""
+}
+
+func c05compareSvc(p *types.Project, svcName string, e c05exp) string {
+	s, ok := p.Services[svcName]
 	if !ok {
-		return "service s0 missing"
+		return "service " + svcName + " missing"
 	}
 	if s.Extends != nil {
 		return "extends attribute left on the resolved service"
 	}
-	if s.Image != "img0" {
-		return "image: " + s.Image + " (the extending service's own image must win)"
+	if s.Image != e.image {
+		return "image: " + s.Image + " (the service's own image must win)"
+	}
+	lo := map[string]string{}
+	if s.Logging != nil {
+		for k, v := range s.Logging.Options {
+			lo[k] = v
+		}
+	}
+	if fmt.Sprint(lo) != fmt.Sprint(e.logopts) {
+		return fmt.Sprintf("logging.options %v, expected %v", lo, e.logopts)
 	}
 	if s.Hostname != e.hostname {
 		return fmt.Sprintf("hostname %q, expected %q", s.Hostname, e.hostname)
@@ -215,7 +257,7 @@ func c05compare(p *types.Project, e c05exp) string {
 }
 
 func attrKeyOf(msg string) string {
-	for _, a := range []string{"hostname", "environment", "security_opt", "command", "build.context", "env_file", "volumes", "extends", "image"} {
+	for _, a := range []string{"hostname", "environment", "security_opt", "command", "build.context", "env_file", "volumes", "extends", "image", "logging.options"} {
 		if strings.HasPrefix(msg, a) {
 			return a
 		}
@@ -292,7 +334,7 @@ func (c05) Run(c *core.Ctx) {
 							}
 							return core.Outcome{Class: "err", Sample: sample, Viol: &core.Violation{Key: fmt.Sprintf("chain-rejected:same%v", same), Msg: id + ": an acyclic extends chain is rejected: " + err.Error()}}
 						}
-						if msg := c05compare(p, c05expect(ch, pl.carries, root)); msg != "" {
+						if msg := c05compareAll(p, ch, pl.carries, root); msg != "" {
 							cross := "samefile"
 							if crosses {
 								cross = "crossfile"
@@ -315,7 +357,6 @@ func (c05) Run(c *core.Ctx) {
 					c.Do(id, func() core.Outcome {
 						s, _ := c05build(ch, allC, pm)
 						root := s.Materialise()
-						exp := c05expect(ch, allC, root)
 						for k := uintptr(0); k < 8; k++ {
 							mapctl.SetUniform(k)
 							p, err := s.LoadAt(root)
@@ -323,7 +364,7 @@ func (c05) Run(c *core.Ctx) {
 							if err != nil {
 								return core.Outcome{Class: "err", Viol: &core.Violation{Key: "order-dependent:rejected", Msg: fmt.Sprintf("%s rotation %d: %v", id, k, err)}, Sample: s.Files}
 							}
-							if msg := c05compare(p, exp); msg != "" {
+							if msg := c05compareAll(p, ch, allC, root); msg != "" {
 								return core.Outcome{Class: "diff", Viol: &core.Violation{Key: "order-dependent:" + attrKeyOf(msg), Msg: fmt.Sprintf("%s, declaration order %v, map rotation %d: %s", id, pm, k, msg)}, Sample: s.Files}
 							}
 						}
